@@ -71,6 +71,9 @@ type FS struct {
 	stats []*types.Stat
 	// OpenHook, if set, may replace the reader for a path (fault injection).
 	OpenHook func(p string, rc io.ReadCloser) (io.ReadCloser, error)
+	// NotExistIsError: a walk of a target that does not exist returns the not-exist error the callback was handed
+	// and returned (what filepath.WalkDir and io/fs adapters do); by default it is swallowed, as NewFS does
+	NotExistIsError bool
 	// WalkHook, if set, is consulted before each entry is reported.
 	WalkHook func(i int, p string) error
 	// EOFWithData: readers report the final bytes together with io.EOF (allowed by io.Reader;
@@ -156,7 +159,7 @@ func (f *FS) Walk(ctx context.Context, target string, fn gofs.WalkDirFunc) error
 		err = walk(i)
 	} else {
 		err = fn(target, nil, &os.PathError{Op: "lstat", Path: target, Err: os.ErrNotExist})
-		if err != nil && os.IsNotExist(err) {
+		if err != nil && os.IsNotExist(err) && !f.NotExistIsError {
 			err = nil
 		}
 	}
